@@ -14,7 +14,7 @@ def winErr : WinErr → String
 /-- request: kind (0 char, 1 byte, 2 full), max, ctx, cluster byte lengths -/
 def windowsD (op : String) (args : List Nat) : Option String :=
   match op with
-  | "windows" => some <| match runP (do let k ← pNat; let m ← pNat; let c ← pNat; let l ← pNats; pure (k, m, c, l)) args with
+  | "windows" => some <| match runP (do let k ← pNat; let m ← pNat; let c ← pNat; let _realisation ← pNat; let l ← pNats; pure (k, m, c, l)) args with
       | some (k, m, c, lens) =>
         if lens.any (fun x => x == 0) then reject else
         let r := match k with
